@@ -33,7 +33,7 @@ FINISHES = [("fin", None), ("fin", 1), ("fin", 1024)]
 CTYPES_A = ["text/html", "text/plain; charset=utf-8", "application/json",
             "application/json; charset=utf-8", "image/svg+xml", "image/png",
             "application/octet-stream", "application/jsonx", "textual/x", None,
-            "TEXT/HTML"]
+            "TEXT/HTML", "application/rss+xml", "application/soap+xml; charset=utf-8"]
 AES_A = [None, "gzip", "deflate, gzip", "gzip, deflate, br", "identity", "deflate",
          "*", "", "gzip;q=0", "GZIP", "x-gzip"]
 CES = [None, "br", "identity"]
@@ -48,7 +48,7 @@ PROGS_A = [
 CTYPES_B = ["text/html; charset=UTF-8", "application/json", "image/png"]
 AES_B = ["gzip", None]
 CES_B = [None, "br"]
-VARYS_B = [None, "Cookie"]
+VARYS_B = [None, "Cookie", "X-Accept-Encoding", "Cookie, Accept-Encoding-Override"]
 
 # Documented compressible types: "all mime types beginning with text/" plus
 # the whitelist in the GZipContentEncoding docstring / class comment.  Media
@@ -248,7 +248,7 @@ def judge(case, get, head):
         # Vary always includes Accept-Encoding; handler's own Vary survives
         if "accept-encoding" not in vary:
             bad.append(("vary-missing:" + tag, "Vary %r lacks Accept-Encoding" % (vary,)))
-        if case.get("vary") and case["vary"].lower() not in vary:
+        if case.get("vary") and not set(tokens([case["vary"].encode()])) <= set(vary):
             bad.append(("vary-lost:" + tag, "handler's Vary %r lost: %r" % (case["vary"], vary)))
         # Content-Encoding decision
         if case.get("ce"):
